@@ -1,5 +1,6 @@
 """C02 — pipelines are lazy: construction reads no data row; k output rows cost O(k) source rows,
 independent of the source length."""
+import os
 import io, re, pickle, random
 from collections import OrderedDict
 from contextlib import contextmanager
@@ -327,7 +328,14 @@ def run(ctx):
         ctx.extra['materialisation_sites'] = [list(x) for x in info2['sites']]
     except Exception as e:   # noqa
         ctx.bridge('translator: materialisation sites extracted', False, repr(e))
-    ctx.prove(['PetlProofs.Props.C02'], REQUIRED)
+    from translators import pullshape
+    try:
+        info3 = pullshape.generate()
+        ctx.bridge('translator: pull shapes of the generator functions (%d programs, one per function and operand)' % info3['functions'], True)
+    except Exception as e:   # noqa
+        ctx.bridge('translator: pull shapes extracted', False, repr(e))
+    ctx.prove(['PetlProofs.Props.C02', 'PetlProofs.Props.C02Shape'],
+              REQUIRED + ['Petl.C02.pull_shapes_as_expected', 'Petl.C02.bounded_never_scans_ahead', 'Petl.C02.bounded_functions_never_scan_ahead'])
     rng = ctx.rng
     ops = catalog(etl)
     N1, N2 = 1000, 10000
@@ -505,6 +513,49 @@ def run(ctx):
                 ctx.spec_fail('%s|header-request-reads-rows' % name,
                               '%s: %s on the view pulled (%d, %d) data rows from its inputs' % (name, consult, a.pulls, b.pulls),
                               {'pipeline': name, 'consult': consult, 'pulls': (a.pulls, b.pulls)})
+
+    # tie of the pull-shape IR to the running code: for every catalogued operator whose iterator is one of the translated
+    # generator functions with a derived bound k, the real interleaving of source pulls and delivered rows stays within k
+    import re as _re
+    shapes = {}
+    try:
+        txt = open(os.path.join(lean.LEAN_DIR, 'PetlProofs', 'Props', 'C02Shape.lean')).read()
+        for m in _re.finditer(r'\("([^"]+)", (none|some (-?\d+)), (true|false)\)', txt):
+            shapes[m.group(1)] = None if m.group(2) == 'none' else int(m.group(3))
+    except Exception:   # noqa
+        pass
+    tied = 0
+    for name, (build, C, hdr_ok, ragged_ok) in ops.items():
+        s = Src(40, 3, False)
+        try:
+            it = iter(build(s))
+        except Exception:   # noqa
+            continue
+        code = getattr(it, 'gi_code', None)
+        if code is None or '/petl/' not in code.co_filename:
+            continue
+        fq = code.co_filename.split('/petl/')[-1][:-3].replace('/', '.') + '.' + getattr(code, 'co_qualname', code.co_name)
+        k = shapes.get(fq)
+        ctx.count('shape-tie:%s' % ('bounded' if k is not None else ('unbounded' if fq in shapes else 'not-translated')))
+        if k is None:
+            continue
+        worst, got = None, 0
+        try:
+            for _row in it:
+                got += 1
+                lag = s.hdr_pulls + s.pulls - got
+                if worst is None or lag > worst[0]:
+                    worst = (lag, got)
+                if got >= 30:
+                    break
+        except Exception:   # noqa
+            pass
+        tied += 1
+        ctx.case(('shape-tie', name))
+        if worst is not None and worst[0] > k:
+            ctx.corr_fail('pull-shape', 'the running generator reads further ahead than the bound derived from its translated shape',
+                          {'pipeline': name, 'function': fq, 'bound': k, 'lag': worst[0], 'at_output_row': worst[1]})
+    ctx.extra['pull_shape_tie'] = {'operators_tied': tied, 'functions_with_bound': sum(1 for v in shapes.values() if v is not None), 'functions': len(shapes)}
 
     # extractors: bytes read for k rows do not depend on the file length
     def files(n):
